@@ -252,38 +252,127 @@ def run(prog, res, tier):
         res.add("R5.same_queries", "R5|%s|%s" % (REL, q), REL + ":1", ok,
                 "%s() is answered by ARRAY, LIST, BAG and SET" % q if ok else "%s() is missing from %s" % (q, sorted(set(CLASSES) - set(have))))
 
+    def linear(e):
+        """linear form {symbol or 1: coefficient} of an integer expression over b1 = self._bound_1, b2 = self._bound_2,
+        n = len(self._container); None when the expression is anything else"""
+        if isinstance(e, ast.Call) and isinstance(e.func, ast.Name) and e.func.id == "INTEGER" and len(e.args) == 1:
+            return linear(e.args[0])
+        if isinstance(e, ast.Constant) and isinstance(e.value, int) and not isinstance(e.value, bool):
+            return {1: e.value}
+        if isinstance(e, ast.Attribute) and src(e) in ("self._bound_1", "self._bound_2"):
+            return {"b1" if e.attr == "_bound_1" else "b2": 1}
+        if isinstance(e, ast.Call) and src(e) == "len(self._container)":
+            return {"n": 1}
+        if isinstance(e, ast.UnaryOp) and isinstance(e.op, (ast.USub, ast.UAdd)):
+            v = linear(e.operand)
+            return None if v is None else {k: (-c if isinstance(e.op, ast.USub) else c) for k, c in v.items()}
+        if isinstance(e, ast.BinOp) and isinstance(e.op, (ast.Add, ast.Sub)):
+            l, r = linear(e.left), linear(e.right)
+            if l is None or r is None:
+                return None
+            out = dict(l)
+            for k, c in r.items():
+                out[k] = out.get(k, 0) + (c if isinstance(e.op, ast.Add) else -c)
+            return {k: c for k, c in out.items() if c}
+        return None
+
     def ret_of(cls, name):
         m = methods[cls].get(name)
         if m is None:
             return None
         rets = [x for x in ast.walk(m) if isinstance(x, ast.Return) and x.value is not None]
-        return [src(r.value) for r in rets]
+        return [(linear(r.value), src(r.value)) for r in rets]
     for cls, name, want, why in (
-            ("ARRAY", "get_size", ["INTEGER(self._bound_2-self._bound_1+1)"], "an array has bound_2 - bound_1 + 1 elements"),
-            ("ARRAY", "get_loindex", ["INTEGER(self._bound_1)"], "array indices start at bound_1"),
-            ("ARRAY", "get_hiindex", ["INTEGER(self._bound_2)"], "array indices end at bound_2"),
-            ("LIST", "get_loindex", ["INTEGER(1)"], "list elements are numbered from 1"),
-            ("BAG", "get_loindex", ["INTEGER(1)"], "LOINDEX of a bag is 1"),
-            ("SET", "get_loindex", ["INTEGER(1)"], "LOINDEX of a set is 1"),
-            ("BAG", "get_size", ["INTEGER(len(self._container))"], "SIZEOF a bag is its number of elements"),
-            ("SET", "get_size", ["INTEGER(len(self._container))"], "SIZEOF a set is its number of elements"),
-            ("BAG", "get_hiindex", ["INTEGER(len(self._container))"], "HIINDEX of a bag is its number of elements"),
-            ("SET", "get_hiindex", ["INTEGER(len(self._container))"], "HIINDEX of a set is its number of elements")):
+            ("ARRAY", "get_size", {"b2": 1, "b1": -1, 1: 1}, "an array has bound_2 - bound_1 + 1 elements"),
+            ("ARRAY", "get_loindex", {"b1": 1}, "array indices start at bound_1"),
+            ("ARRAY", "get_hiindex", {"b2": 1}, "array indices end at bound_2"),
+            ("LIST", "get_loindex", {1: 1}, "list elements are numbered from 1"),
+            ("BAG", "get_loindex", {1: 1}, "LOINDEX of a bag is 1"),
+            ("SET", "get_loindex", {1: 1}, "LOINDEX of a set is 1"),
+            ("BAG", "get_size", {"n": 1}, "SIZEOF a bag is its number of elements"),
+            ("SET", "get_size", {"n": 1}, "SIZEOF a set is its number of elements"),
+            ("BAG", "get_hiindex", {"n": 1}, "HIINDEX of a bag is its number of elements"),
+            ("SET", "get_hiindex", {"n": 1}, "HIINDEX of a set is its number of elements")):
         got = ret_of(cls, name)
-        ok = got == want
+        ok = bool(got) and all(g[0] == want for g in got)
         m = methods[cls].get(name)
         res.add("R5.query_value", "R5|%s|%s.%s" % (REL, cls, name), "%s:%d" % (REL, m.lineno if m else 1), ok,
-                "%s.%s() returns %s (%s)" % (cls, name, want[0], why) if ok else "%s.%s() returns %s; expected %s: %s" % (cls, name, got, want[0], why))
-    # ---- R6 optional
+                "%s.%s() returns %s (%s)" % (cls, name, got[0][1], why) if ok else
+                "%s.%s() returns %s; expected the value %s: %s" % (cls, name, [g[1] for g in got] if got else None,
+                                                                 " + ".join("%s*%s" % (c, k) for k, c in want.items()), why))
+    # ---- R6 optional: the part of __getitem__ after the element has been read is executed for every combination of
+    # (array OPTIONAL or not) x (element None / set but falsy (0, 0.0, False, '') / set and truthy); it must raise exactly for
+    # (not OPTIONAL, None) and return the element otherwise
     gi = methods["ARRAY"].get("__getitem__")
     ok = False
+    why = "no statement reads self._container[index - self._bound_1] into a variable"
     if gi is not None:
         for st, ctx in contexts(gi):
-            if isinstance(st, ast.If) and src(st.test) in ("notself._optionalandvalueisNone", "valueisNoneandnotself._optional") and always_raises(st.body):
-                later_ret = any(isinstance(x, ast.Return) for x in ast.walk(gi))
-                reads = [b for b in ctx.before if isinstance(b, ast.Assign) and "self._container[index-self._bound_1]" in src(b.value)]
-                ok = later_ret and bool(reads)
+            if not (isinstance(st, ast.Assign) and len(st.targets) == 1 and isinstance(st.targets[0], ast.Name) and
+                    "self._container[index-self._bound_1]" in src(st.value)):
+                continue
+            var = st.targets[0].id
+            # the statements that follow the read in the same block
+            rest = None
+            for body in [n.body for n in ast.walk(gi) if hasattr(n, "body") and isinstance(n.body, list)] + \
+                        [n.orelse for n in ast.walk(gi) if getattr(n, "orelse", None)]:
+                if st in body:
+                    rest = body[body.index(st) + 1:]
+            if rest is None:
+                continue
+
+            def truth(e, val, opt):
+                if isinstance(e, ast.Name) and e.id == var:
+                    return val == "truthy"
+                if isinstance(e, ast.Attribute) and src(e) == "self._optional":
+                    return opt
+                if isinstance(e, ast.UnaryOp) and isinstance(e.op, ast.Not):
+                    t = truth(e.operand, val, opt)
+                    return None if t is None else (not t)
+                if isinstance(e, ast.BoolOp):
+                    ts = [truth(x, val, opt) for x in e.values]
+                    if isinstance(e.op, ast.And):
+                        return False if any(t is False for t in ts) else (None if any(t is None for t in ts) else True)
+                    return True if any(t is True for t in ts) else (None if any(t is None for t in ts) else False)
+                if isinstance(e, ast.Compare) and len(e.ops) == 1 and isinstance(e.left, ast.Name) and e.left.id == var and \
+                        isinstance(e.comparators[0], ast.Constant) and e.comparators[0].value is None:
+                    if isinstance(e.ops[0], (ast.Is, ast.Eq)):
+                        return val == "none"
+                    if isinstance(e.ops[0], (ast.IsNot, ast.NotEq)):
+                        return val != "none"
+                return None
+
+            def run_block(block, val, opt):
+                for x in block:
+                    if isinstance(x, ast.Raise):
+                        return "raise"
+                    if isinstance(x, ast.Return):
+                        return "return-element" if isinstance(x.value, ast.Name) and x.value.id == var else "return-other"
+                    if isinstance(x, ast.If):
+                        t = truth(x.test, val, opt)
+                        if t is None:
+                            return "unknown"
+                        r = run_block(x.body if t else x.orelse, val, opt)
+                        if r != "fallthrough":
+                            return r
+                        continue
+                    if isinstance(x, (ast.Expr, ast.Pass)):
+                        continue
+                    return "unknown"
+                return "fallthrough"
+            table = {}
+            for opt in (False, True):
+                for val in ("none", "falsy", "truthy"):
+                    table[(opt, val)] = run_block(rest, val, opt)
+            wrong = [(o, v, r) for (o, v), r in sorted(table.items()) if r != ("raise" if (not o and v == "none") else "return-element")]
+            ok = not wrong
+            if wrong:
+                o, v, r = wrong[0]
+                why = "for a%s array and an element that is %s it %s" % (
+                    "n OPTIONAL" if o else " non-OPTIONAL", {"none": "unset (None)", "falsy": "set to a false value such as 0, 0.0, False or ''", "truthy": "set"}[v],
+                    {"raise": "raises", "return-element": "returns the element", "return-other": "returns something else", "unknown": "does something the rule cannot follow",
+                     "fallthrough": "returns nothing"}[r])
     res.add("R6.unset_needs_optional", "R6|%s|ARRAY.__getitem__|optional" % REL, "%s:%d" % (REL, gi.lineno if gi else 1), ok,
-            "an unset element is returned only when the array is OPTIONAL" if ok else
-            "ARRAY.__getitem__ no longer raises for an unset element of a non-OPTIONAL array")
+            "reading an element raises exactly when the array is not OPTIONAL and the element is unset; any set value, also 0 / False / '', is returned" if ok else
+            "ARRAY.__getitem__: %s" % why)
     res.info["classes"] = {c: sorted(methods[c]) for c in CLASSES}
